@@ -115,6 +115,9 @@ func cmdVerify(args []string) {
 			td := time.Now()
 			e.discharge(cfg)
 			e.secs = time.Since(td).Seconds()
+			if os.Getenv("GOVC_COVER") != "" {
+				fmt.Println("   dead returns:", e.coverReturns(cfg))
+			}
 			mu.Lock()
 			defer mu.Unlock()
 			nf := 0
